@@ -493,3 +493,91 @@ def prog():
                 # forced to the conjunction (a conjunction derived inside the previous iteration's region is not)
                 d["S.guard_determined[%s %d]" % (t, i)] = Implies(tied, c.eva(g) == c.v(g) % c.p)
         return d
+
+
+@register
+class SchemaEmptyRangeInRegion(_Schema):
+    """_if(a) .. for i in _range(0): .. _endfor() .. _endif(): a for loop over an EMPTY public range inside a region.
+    The pinned tree refuses it (KF-24); whatever a tree does with it, once the loop construct has been closed the guard
+    state is the one from before the loop -- `_endfor` must close the loop's own region, never the enclosing one."""
+    name = "pysnark.branching:_range#empty_in_region"
+    vprops = ("C09", "C08")
+    fprops = ("C09", "C08")
+    cprops = tprops = ()
+    skip_facets = "CTN"
+    raises_unspecified = True
+    covers_normal = False
+
+    def configs(self, tier):
+        return [dict(cond="secret_lc", bits=3, bounds=b) for b in ("0", "5,3")]
+
+    def setup(self, c, cfg):
+        apply_mode(c, "plain", bitlength=cfg["bits"])
+        br = self.br(c)
+        rt = c.rt
+        a = _cond(c, cfg["cond"], "a")
+        self._seen = []
+
+        def probe(tag):
+            self._seen.append((tag, rt.guard, rt.ignore_errors(), rt.LinComb.ONE))
+        bounds = tuple(int(x) for x in cfg["bounds"].split(","))
+        return c.client("""
+def prog():
+    _ = BranchingValues()
+    if _if(a):
+        probe("before")
+        for i in _range(*bounds):
+            probe("body")
+        _endfor()
+        probe("after")
+    _endif()
+    return _
+""", a=a, probe=probe, bounds=bounds, **API(br)), (), {}
+
+    def _loop_closed_cleanly(self, c):
+        seen = {t: (g, ie_, one) for t, g, ie_, one in self._seen if t != "body"}
+        if "after" not in seen or "before" not in seen:
+            return True           # the loop was refused before it could be closed
+        (g0, i0, o0), (g1, i1, o1) = seen["before"], seen["after"]
+        return And(g0 is g1, o0 is o1, formula(i0) == formula(i1))
+
+    def post(self, c, r, *a_):
+        return {"F.state_after_loop_is_state_before_it": self._loop_closed_cleanly(c),
+                "F.stack_empty": len(r.stack) == 0, "F.guard_state_restored": self.state_clean(c)}
+
+    def post_exc(self, c, e, *a, **k):
+        return {"F.state_after_loop_is_state_before_it": self._loop_closed_cleanly(c)}
+
+
+@register
+class SchemaForStartStop(_Schema):
+    """for i in _range(start, stop) with PUBLIC bounds given as two arguments, start possibly negative and stop
+    possibly 0: the body runs for exactly the values of range(start, stop)."""
+    name = "pysnark.branching:_range#for_start_stop"
+
+    def configs(self, tier):
+        return [dict(bits=4, start=s, stop=e) for s, e in ((-2, 0), (1, 3), (-1, 2), (-1, 0))]
+
+    def setup(self, c, cfg):
+        apply_mode(c, "plain", bitlength=cfg["bits"])
+        br = self.br(c)
+        acc0 = c.operand("acc0")
+        self._ops = (acc0,)
+        self._is = []
+        return c.client("""
+def prog():
+    _ = BranchingValues()
+    _.acc = acc0
+    for i in _range(start, stop):
+        seen.append(i)
+        _.acc = _.acc + i
+    _endfor()
+    return _
+""", acc0=acc0, start=cfg["start"], stop=cfg["stop"], seen=self._is, **API(br)), (), {}
+
+    def post(self, c, r, *a_):
+        (acc0,) = self._ops
+        want = list(range(c.cfg["start"], c.cfg["stop"]))
+        return {"V.iterations": [int(i) for i in self._is] == want,
+                "V.acc": Eq(c.v(r.acc), c.v(acc0) + sum(want)), "V.inv": c.inv(r.acc),
+                "F.stack_empty": len(r.stack) == 0, "F.guard_state_restored": self.state_clean(c)}
